@@ -5,6 +5,7 @@ package rules
 
 import (
 	"fmt"
+	"go/constant"
 	"go/token"
 	"go/types"
 	"strings"
@@ -25,9 +26,7 @@ func init() {
 	extend("C05", "(R5.10) Finalize of the five in-place controllers answers success without writing only when the workload is absent or provably not held (control annotation empty or not paused).", r4C05b)
 	imp := func(id, from string, mapping map[string]string, expl string) {
 		extend(id, expl, func(c *Ctx) {
-			t := NewCtx(c.Prog, from, c.Tier, c.OutDir)
-			Registry[from].Run(t)
-			c.Import(t, mapping, " (= "+from+"'s rule, a necessary condition of this property too)")
+			importFrom(c, from, mapping)
 		})
 	}
 	extend("C18", "(R18.6) the loop that strips the controllers' finalizer from generated objects sees terminating objects too: neither it nor the listing it uses filters on the deletion timestamp (a terminating object is exactly the one waiting for its finalizer).", r4C18)
@@ -1527,5 +1526,450 @@ func r4C17b(c *Ctx) {
 	}
 	if n == 0 {
 		c.Unresolved("R17.8", "append-derived list pairs in pkg/controller/deployment")
+	}
+}
+
+// ================================================================ round 5
+
+func init() {
+	extend := func(id string, expl string, extra func(c *Ctx)) {
+		pr := Registry[id]
+		old := pr.Run
+		pr.Run = func(c *Ctx) { old(c); extra(c) }
+		pr.Explanation += " " + expl
+	}
+	imp := func(id, from string, mapping map[string]string, expl string) {
+		extend(id, expl, func(c *Ctx) {
+			importFrom(c, from, mapping)
+		})
+	}
+	extend("C01", "(R1.10) the partition handed to a CloneSet for a percentage step is itself a percentage (it scales with the workload): ParseIntegerAsPercentageIfPossible returns only intstr.FromString values; (R1.11) the three raw-patch partition-style Finalize implementations clear the partition only under batchPartition == nil — a BatchRelease that is merely going away (continuous release) leaves the webhook's hold in place.", r5C01)
+	extend("C03", "(R3.9) the Gateway and Ingress providers answer 'verified' (EnsureRoutes) or 'nothing to restore' (Finalise) without a write only when the object is not found (or already terminating) or when the desired configuration was computed and found equal to the current one.", r5C03)
+	imp("C13", "C03", map[string]string{"R3.9": "R13.8"}, "(R13.8 = C03 R3.9) the Gateway provider's Finalise cannot declare an HTTPRoute restored without having compared it with the restored form.")
+	imp("C14", "C03", map[string]string{"R3.9": "R14.8"}, "(R14.8 = C03 R3.9) the Ingress provider cannot declare a step applied without having run the class script against the existing canary Ingress.")
+	extend("C07", "(R7.9) the BatchRelease spec the release managers build (and compare with the stored one by DeepEqual) contains no freshly made empty map: the stored object reads such a map back as nil, the comparison never succeeds and the step never leaves Upgrade.", r5C07)
+	extend("C08", "(R8.9) the ReplicaSets of a Deployment are listed by the Deployment's own selector (a release may change the template labels; the selector is immutable).", r5C08)
+	extend("C09", "(R9.2d) the non-decreasing check of the v1beta1 step validator compares each step with its predecessor: when the predecessor's value is carried in a loop variable, the variable is refreshed on every way round the loop (no `continue` in between); (R9.7) the custom provider fills its pre-sized object list on every iteration of the fetch loop, or returns an error: the later loops dereference every entry.", r5C09)
+	imp("C15", "C09", map[string]string{"R9.7": "R15.9"}, "(R15.9 = C09 R9.7) a referenced resource that is missing is an error of EnsureRoutes, not an entry that is skipped.")
+	extend("C11", "(R11.10) every pod-count predicate handed to WrappedPodCount (updated-ready pods of StatefulSet-like and DaemonSet workloads, labelled pods of the batch) counts a pod only when its deletion timestamp is zero.", r5C11)
+	extend("C12", "(R12.9) BatchContext.Replicas is the workload's desired size (spec), never a status counter, in every CalculateBatchContext: the label patcher's plan arithmetic and PlannedUpdatedReplicas must be computed from the same size.", r5C12)
+}
+
+func r5C01(c *Ctx) {
+	p := c.Prog
+	c.Rule("R1.10", "ParseIntegerAsPercentageIfPossible returns a percentage on every path", 1)
+	if fn := p.Func("pkg/controller/batchrelease/control.ParseIntegerAsPercentageIfPossible"); fn == nil {
+		c.Unresolved("R1.10", "control.ParseIntegerAsPercentageIfPossible")
+	} else {
+		bad := ""
+		n := 0
+		for _, ret := range returnsOf(fn) {
+			if len(ret.Results) != 1 {
+				continue
+			}
+			for _, lf := range Leaves(Forwarded(ret.Results[0]), ret.Block()) {
+				n++
+				t := TermOf(lf.V)
+				if !(t.Op == "call" && strings.HasSuffix(t.Name, "intstr.FromString")) {
+					bad = "the value returned at " + p.Pos(ret.Pos()) + " is " + t.String() + ", not an intstr.FromString(...)"
+				}
+			}
+		}
+		c.Ob("R1.10", "ParseIntegerAsPercentageIfPossible#returns-percent", fn.Pos(), n > 0 && bad == "", "every result is a string-typed (percentage) IntOrString",
+			ifs(bad != "", bad+": an absolute partition does not follow a scale-up of the workload, all added pods are created on the new revision and UpgradeBatch never raises a partition again"))
+	}
+
+	c.Rule("R1.11", "raw-patch Finalize clears the partition only under batchPartition == nil", 3)
+	cp := "pkg/controller/batchrelease/control/partitionstyle/"
+	for _, name := range []string{cp + "cloneset.realController.Finalize", cp + "daemonset.realController.Finalize", cp + "statefulset.realController.Finalize"} {
+		fn := p.Func(name)
+		if fn == nil {
+			c.Unresolved("R1.11", name)
+			continue
+		}
+		found := false
+		bad := ""
+		for _, f := range samePkgClosure(p, fn) {
+			for _, b := range f.Blocks {
+				for _, in := range b.Instrs {
+					for _, op := range in.Operands(nil) {
+						k, ok := (*op).(*ssa.Const)
+						if !ok || k.Value == nil || k.Value.Kind() != constant.String || !strings.Contains(constant.StringVal(k.Value), `"partition":null`) {
+							continue
+						}
+						found = true
+						var fs []Fact
+						if ph, isPhi := in.(*ssa.Phi); isPhi {
+							for i, e := range ph.Edges {
+								if e == ssa.Value(k) {
+									fs = append(fs, FactsFor(f).OnEdge(ph.Block().Preds[i], ph.Block())...)
+									fs = append(fs, FactsFor(f).At(ph.Block().Preds[i])...)
+								}
+							}
+						} else {
+							fs = FactsAtInstr(in)
+						}
+						if !HasFact(fs, FNil(MField("BatchPartition"))) {
+							bad = "the promoting patch body is chosen at " + p.Pos(in.Pos()) + " on a path that has not established batchPartition == nil"
+						}
+					}
+				}
+			}
+		}
+		if !found {
+			c.Ob("R1.11", shortName(name)+"#promote-only-unpartitioned", fn.Pos(), false, "patch body that clears the partition", "anchor not found")
+			continue
+		}
+		c.Ob("R1.11", shortName(name)+"#promote-only-unpartitioned", fn.Pos(), bad == "", "the partition is cleared only when the release plan is no longer partitioned",
+			ifs(bad != "", bad+": a BatchRelease deleted with its partition still set (continuous release) releases the whole workload to the newest revision while the rollout restarts at step one"))
+	}
+}
+
+func r5C03(c *Ctx) {
+	p := c.Prog
+	c.Rule("R3.9", "providers answer settled without a write only on not-found / desired == current", 4)
+	isWrite := apiWrites(p)
+	for _, s := range []struct {
+		fn      string
+		settled string
+	}{
+		{"pkg/trafficrouting/network/gateway.gatewayController.EnsureRoutes", "true"},
+		{"pkg/trafficrouting/network/gateway.gatewayController.Finalise", "false"},
+		{"pkg/trafficrouting/network/ingress.ingressController.EnsureRoutes", "true"},
+		{"pkg/trafficrouting/network/ingress.ingressController.Finalise", "false"},
+	} {
+		fn := p.Func(s.fn)
+		if fn == nil {
+			c.Unresolved("R3.9", s.fn)
+			continue
+		}
+		allowed := FOr(
+			FTrue(MCall("errors.IsNotFound")),
+			FTrue(MCall("reflect.DeepEqual")),
+			FFalse(MCall("Time.IsZero", MField("DeletionTimestamp"))),
+		)
+		bad := ""
+		for _, ret := range returnsOf(fn) {
+			if ret.Block() == fn.Recover || len(ret.Results) != 2 {
+				continue
+			}
+			canNil, canSettled := false, false
+			for _, lf := range Leaves(ret.Results[1], ret.Block()) {
+				if k, ok := lf.V.(*ssa.Const); ok && k.IsNil() {
+					canNil = true
+				}
+			}
+			for _, lf := range Leaves(ret.Results[0], ret.Block()) {
+				if k, ok := lf.V.(*ssa.Const); !ok || constText(k) == s.settled {
+					canSettled = true
+				}
+			}
+			if !canNil || !canSettled {
+				continue
+			}
+			if r, _ := CanReach(Entry(fn), func(in ssa.Instruction) bool { return in == ssa.Instruction(ret) }, ReachOpts{CutInstr: isWrite, CutEdge: func(b *ssa.BasicBlock, k int) bool { return EdgeFactMatches(b, k, allowed) }}); r {
+				bad = "the return at " + p.Pos(ret.Pos()) + " answers (" + s.settled + ", nil) although the object was neither found missing nor compared with the desired configuration"
+			}
+		}
+		what := "'verified'"
+		if s.settled == "false" {
+			what = "'nothing to restore'"
+		}
+		c.Ob("R3.9", shortName(s.fn)+"#settled-needs-comparison", fn.Pos(), bad == "", what+" is answered only for a missing object or after desired == current",
+			ifs(bad != "", bad+": the step (or the clean-up) is reported complete while the routing object still carries another configuration"))
+	}
+}
+
+func r5C07(c *Ctx) {
+	p := c.Prog
+	c.Rule("R7.9", "no fresh empty map in the BatchRelease spec that is compared with the stored one", 2)
+	for _, name := range []string{"pkg/controller/rollout.canaryReleaseManager.createBatchRelease", "pkg/controller/rollout.blueGreenReleaseManager.createBatchRelease"} {
+		fn := p.Func(name)
+		if fn == nil {
+			c.Unresolved("R7.9", name)
+			continue
+		}
+		bad := ""
+		for _, f := range samePkgClosure(p, fn) {
+			for _, b := range f.Blocks {
+				for _, in := range b.Instrs {
+					mm, ok := in.(*ssa.MakeMap)
+					if !ok || mm.Referrers() == nil {
+						continue
+					}
+					// stored into a field of an API struct other than object metadata?
+					for _, r := range *mm.Referrers() {
+						st, ok := r.(*ssa.Store)
+						if !ok || st.Val != ssa.Value(mm) {
+							continue
+						}
+						fa, ok := st.Addr.(*ssa.FieldAddr)
+						if !ok {
+							continue
+						}
+						owner := fa.X.Type().String()
+						if strings.Contains(owner, "rollouts/api/") && !strings.Contains(owner, "ObjectMeta") {
+							fld, _ := FieldOf(fa)
+							bad = "a freshly made map is stored into " + strings.TrimPrefix(owner, "*") + "." + fld + " at " + p.Pos(st.Pos())
+						}
+					}
+				}
+			}
+		}
+		c.Ob("R7.9", shortName(name)+"#no-fresh-empty-map", fn.Pos(), bad == "", "the desired spec holds the Rollout's own values, no normalised copies",
+			ifs(bad != "", bad+": an empty map is stored as absent and read back as nil, so reflect.DeepEqual(desired, stored) is false on every reconcile: the BatchRelease is rewritten for ever and the step never reports done"))
+	}
+}
+
+func r5C08(c *Ctx) {
+	p := c.Prog
+	c.Rule("R8.9", "ReplicaSets of a Deployment are listed by its selector", 1)
+	fn := p.Func("pkg/util.ControllerFinder.GetReplicaSetsForDeployment")
+	if fn == nil {
+		c.Unresolved("R8.9", "util.ControllerFinder.GetReplicaSetsForDeployment")
+		return
+	}
+	n := 0
+	for _, ci := range AllCalls(fn) {
+		cc := ci.Common()
+		if !cc.IsInvoke() || cc.Method.Name() != "List" || len(cc.Args) < 3 {
+			continue
+		}
+		n++
+		opts := cc.Args[len(cc.Args)-1]
+		bySelector := SliceHas(opts, MField("Spec", "Selector")) || SliceHas(opts, MField("Selector"))
+		byTemplate := SliceHas(opts, MField("Template", "ObjectMeta", "Labels")) || SliceHas(opts, MField("Template", "Labels"))
+		ok := bySelector && !byTemplate
+		c.Ob("R8.9", "GetReplicaSetsForDeployment#by-selector", ci.Pos(), ok, "the list is restricted by the Deployment's selector",
+			ifs(!ok, "the label restriction does not come from spec.selector"+ifs(byTemplate, " but from the pod template's labels")+": a release that changes or adds a template label finds no ReplicaSet, the webhook takes the 'no active ReplicaSet' path and admits the change without pausing the Deployment"))
+	}
+	if n == 0 {
+		c.Unresolved("R8.9", "GetReplicaSetsForDeployment: List call")
+	}
+}
+
+func r5C09(c *Ctx) {
+	p := c.Prog
+	c.Rule("R9.2d", "the non-decreasing check compares each step with its predecessor", 1)
+	vfn := p.Func("pkg/webhook/rollout/validating.validateRolloutSpecCanarySteps")
+	if vfn == nil {
+		c.Unresolved("R9.2d", "validating.validateRolloutSpecCanarySteps")
+	} else {
+		found := false
+		for _, f := range samePkgClosure(p, vfn) {
+			for _, b := range f.Blocks {
+				for _, in := range b.Instrs {
+					isMsg := false
+					for _, op := range in.Operands(nil) {
+						if k, ok := (*op).(*ssa.Const); ok && k.Value != nil && k.Value.Kind() == constant.String && strings.Contains(constant.StringVal(k.Value), "non decreasing") {
+							isMsg = true
+						}
+					}
+					if !isMsg {
+						continue
+					}
+					found = true
+					// the comparison that leads here
+					bad := ""
+					okCmp := false
+					for _, fct := range FactsAtInstr(in) {
+						if fct.Op != "<" && fct.Op != ">" {
+							continue
+						}
+						for _, side := range []*Term{fct.L, fct.R} {
+							if side == nil || side.V == nil {
+								continue
+							}
+							for x := range BackwardSlice(side.V) {
+								ph, ok := x.(*ssa.Phi)
+								if !ok || ph.Parent() != f {
+									continue
+								}
+								loop := loopBlocks(ph.Block())
+								if !loop[ph.Block()] {
+									continue
+								}
+								if _, isIdx := TermOf(ph).Args, true; isIdx && strings.HasPrefix(ph.Type().String(), "int") && isInductionVar(ph) {
+									continue
+								}
+								okCmp = true
+								for i, e := range ph.Edges {
+									if !loop[ph.Block().Preds[i]] {
+										continue
+									}
+									if carriesUnchanged(e, ph) {
+										bad = "the predecessor's value is kept in a loop variable (" + ph.Comment + ") that is not refreshed on the way back from " + p.Pos(firstPos(ph.Block().Preds[i]))
+									}
+								}
+							}
+							if side.Any(func(t *Term) bool { return t.Op == "index" }) {
+								okCmp = true
+							}
+						}
+					}
+					c.Ob("R9.2d", shortName(FuncName(f))+"#neighbours", in.Pos(), okCmp && bad == "", "the values compared are those of step i and step i-1",
+						ifs(!okCmp, "no ordering comparison found on the path to the rejection")+ifs(bad != "", bad+": a step that takes the skipping path never becomes the reference for its successor, so a decreasing plan is admitted and the controllers' step arithmetic runs on it"))
+				}
+			}
+		}
+		if !found {
+			c.Ob("R9.2d", "validateRolloutSpecCanarySteps#neighbours", vfn.Pos(), false, "rejection of decreasing steps", "anchor not found")
+		}
+	}
+
+	c.Rule("R9.7", "the custom provider's pre-sized object list is filled on every iteration", 1)
+	efn := p.Func("pkg/trafficrouting/network/customNetworkProvider.customController.EnsureRoutes")
+	if efn == nil {
+		c.Unresolved("R9.7", "customController.EnsureRoutes")
+		return
+	}
+	n := 0
+	for _, b := range efn.Blocks {
+		for _, in := range b.Instrs {
+			st, ok := in.(*ssa.Store)
+			if !ok {
+				continue
+			}
+			ia, ok := st.Addr.(*ssa.IndexAddr)
+			if !ok {
+				continue
+			}
+			if _, isMake := sliceRoot(ia.X).(*ssa.MakeSlice); !isMake {
+				continue
+			}
+			if !strings.Contains(st.Val.Type().String(), "Unstructured") {
+				continue
+			}
+			loop := loopBlocks(b)
+			if !loop[b] {
+				continue
+			}
+			n++
+			bad := ""
+			for hb := range loop {
+				isHeader := false
+				for _, pr := range hb.Preds {
+					if !loop[pr] {
+						isHeader = true
+					}
+				}
+				if !isHeader {
+					continue
+				}
+				for _, sb := range hb.Succs {
+					if !loop[sb] || sb == hb {
+						continue
+					}
+					if r, _ := CanReach(Point{Block: sb}, func(x ssa.Instruction) bool { return x.Block() == hb }, ReachOpts{CutInstr: func(x ssa.Instruction) bool { return x == in }}); r {
+						bad = "the loop can go on to the next reference without having stored an object for this one"
+					}
+				}
+			}
+			c.Ob("R9.7", "customController.EnsureRoutes#list-filled", st.Pos(), bad == "", "every iteration stores the fetched object or returns",
+				ifs(bad != "", bad+": the entry stays nil and the loops that follow dereference it — a referenced resource deleted mid-release makes the controller panic on every reconcile"))
+		}
+	}
+	if n == 0 {
+		c.Unresolved("R9.7", "customController.EnsureRoutes: store into the pre-sized object list")
+	}
+}
+
+// isInductionVar: the phi is the counter of its loop (one incoming edge is phi + constant).
+func isInductionVar(ph *ssa.Phi) bool {
+	for _, e := range ph.Edges {
+		if bo, ok := e.(*ssa.BinOp); ok && (bo.X == ssa.Value(ph) || bo.Y == ssa.Value(ph)) {
+			if _, isC := bo.Y.(*ssa.Const); isC {
+				return true
+			}
+		}
+	}
+	return false
+}
+
+// carriesUnchanged: the incoming value e of phi ph is ph itself, possibly through phis that merge
+// ph with other values (then at least one way round keeps the old value).
+func carriesUnchanged(e ssa.Value, ph *ssa.Phi) bool {
+	seen := map[ssa.Value]bool{}
+	var rec func(v ssa.Value) bool
+	rec = func(v ssa.Value) bool {
+		if v == ssa.Value(ph) {
+			return true
+		}
+		if seen[v] {
+			return false
+		}
+		seen[v] = true
+		if q, ok := v.(*ssa.Phi); ok {
+			for _, x := range q.Edges {
+				if rec(x) {
+					return true
+				}
+			}
+		}
+		return false
+	}
+	return rec(e)
+}
+
+func r5C11(c *Ctx) {
+	p := c.Prog
+	c.Rule("R11.10", "pod-count predicates count only pods that are not terminating", 3)
+	wp := p.Func("pkg/util.WrappedPodCount")
+	if wp == nil {
+		c.Unresolved("R11.10", "util.WrappedPodCount")
+		return
+	}
+	for _, cs := range p.Callers(wp) {
+		if cs.Kind != "static" || len(cs.Args) < 2 {
+			continue
+		}
+		var pred *ssa.Function
+		switch x := cs.Args[1].(type) {
+		case *ssa.MakeClosure:
+			pred, _ = x.Fn.(*ssa.Function)
+		case *ssa.Function:
+			pred = x
+		}
+		if pred == nil {
+			c.Ob("R11.10", shortName(FuncName(cs.Caller))+"#count-predicate", cs.Instr.Pos(), false, "pod-count predicate", "undecided: the predicate is not a function literal or a named function")
+			continue
+		}
+		pred = forwardedBody(pred)
+		bad := ""
+		n := 0
+		for _, ret := range returnsOf(pred) {
+			if len(ret.Results) != 1 {
+				continue
+			}
+			for _, lf := range BoolLeaves(ret.Results[0], ret.Block()) {
+				t := TermOf(lf.V)
+				if !(t.Op == "const" && t.Name == "true") {
+					continue
+				}
+				n++
+				fs := append(append([]Fact{}, FactsAtInstr(ret)...), lf.Facts...)
+				if !HasFact(fs, FTrue(MCall("Time.IsZero", MField("DeletionTimestamp")))) {
+					bad = "a pod can be counted (return at " + p.Pos(ret.Pos()) + ") without its deletion timestamp having been found zero"
+				}
+			}
+		}
+		c.Ob("R11.10", shortName(FuncName(cs.Caller))+"#count-predicate", cs.Instr.Pos(), n > 0 && bad == "", "the predicate counts a pod only when it is not terminating",
+			ifs(bad != "", bad+": pods being evicted still report Ready, so a batch is reported (and stays) Ready with fewer live ready pods than the failure threshold allows"))
+	}
+}
+
+func r5C12(c *Ctx) {
+	p := c.Prog
+	c.Rule("R12.9", "BatchContext.Replicas comes from the workload's spec size", 6)
+	for _, fn := range p.RepoFuncs() {
+		if !strings.HasSuffix(FuncName(fn), ".CalculateBatchContext") {
+			continue
+		}
+		for _, st := range FieldStores([]*ssa.Function{fn}, "context.BatchContext", "Replicas") {
+			t := TermOf(st.Val)
+			fromStatus := t.Any(func(x *Term) bool { return x.Op == "field" && x.Name == "Status" }) || (t.Op == "field" && t.Name == "Status")
+			c.Ob("R12.9", shortName(FuncName(fn))+"#Replicas", st.Pos(), !fromStatus, "Replicas is the desired (spec) size",
+				ifs(fromStatus, "Replicas is read from "+t.String()+": while status.replicas differs from spec.replicas (surge, scale in flight) the label budget of a percentage batch is computed against another size than PlannedUpdatedReplicas, and more pods than planned get the batch label"))
+		}
 	}
 }
